@@ -62,7 +62,7 @@ func genScript(rt *rapid.T) Script {
 	n := rapid.IntRange(1, 20).Draw(rt, "n")
 	for i := 0; i < n; i++ {
 		m := Msg{Method: rapid.SampledFrom(methods).Draw(rt, "method")}
-		m.Meta = rapid.SampledFrom([]string{"", "", "", "", "full", "full", "noinfo", "nocaps", "badcaps", "badinfo", "newer", "nonstring", "legacyver"}).Draw(rt, "meta")
+		m.Meta = rapid.SampledFrom([]string{"", "", "", "", "full", "full", "noinfo", "nocaps", "nullcaps", "nullinfo", "badcaps", "badinfo", "newer", "nonstring", "legacyver"}).Draw(rt, "meta")
 		switch m.Method {
 		case "initialize":
 			m.Init = rapid.SampledFrom([]string{"ok:2025-06-18", "ok:2025-11-25", "ok:2024-11-05", "ok:2025-03-26", "ok:2026-07-28", "ok:2024-01-01", "ok:2099-01-01", "ok:", "null", "absent", "wrongtype", "array"}).Draw(rt, "init")
@@ -73,7 +73,7 @@ func genScript(rt *rapid.T) Script {
 		}
 		s.Msgs = append(s.Msgs, m)
 	}
-	s.Spell = rapid.SampledFrom([]int{0, 0, 0, 1, 2, 3, 4}).Draw(rt, "spell")
+	s.Spell = rapid.SampledFrom([]int{0, 0, 0, 1, 2, 3, 4, 5}).Draw(rt, "spell")
 	return s
 }
 
@@ -88,6 +88,10 @@ func metaJSON(kind string) (string, bool) {
 		return "{" + pv(`"2026-07-28"`) + "," + caps + "}", true
 	case "nocaps":
 		return "{" + pv(`"2026-07-28"`) + "," + info + "}", true
+	case "nullcaps": // present but null: as good as absent
+		return "{" + pv(`"2026-07-28"`) + "," + info + `,"` + kCaps + `":null}`, true
+	case "nullinfo": // client info present but null: not an object, refused like any other wrong type
+		return "{" + pv(`"2026-07-28"`) + `,"` + kCI + `":null,` + caps + "}", true
 	case "badcaps":
 		return "{" + pv(`"2026-07-28"`) + "," + info + `,"` + kCaps + `":"yes"}`, true
 	case "badinfo":
@@ -290,7 +294,7 @@ func runInBubble(s Script) (res vt.Result) {
 		// ---- classify the message ----
 		modernReq := false
 		switch m.Meta {
-		case "full", "noinfo", "nocaps", "badcaps", "badinfo", "newer":
+		case "full", "noinfo", "nocaps", "nullcaps", "nullinfo", "badcaps", "badinfo", "newer":
 			modernReq = true
 		}
 		// initialize with non-object params cannot carry _meta at all
@@ -300,7 +304,7 @@ func runInBubble(s Script) (res vt.Result) {
 		fmt.Fprintf(&desc, "%s/%s/%s;", short(m.Method), m.Meta, m.Init)
 		if modernReq {
 			sawMeta = true
-			metaBad := m.Meta == "nocaps" || m.Meta == "badcaps" || m.Meta == "badinfo"
+			metaBad := m.Meta == "nocaps" || m.Meta == "nullcaps" || m.Meta == "nullinfo" || m.Meta == "badcaps" || m.Meta == "badinfo"
 			verBad := m.Meta == "newer"
 			removed := slices.Contains(removedInModern, m.Method)
 			switch {
